@@ -53,9 +53,14 @@ def kind(line):
 
 
 class Proc:
-    def __init__(self, binary, env, scratch):
+    def __init__(self, binary, env, scratch, nofile=None):
         self.dir = tempfile.mkdtemp(prefix="ptstate-", dir=scratch)
-        self.p = subprocess.Popen([binary], env=environ(env, self.dir), stdin=subprocess.PIPE, stdout=subprocess.PIPE, stderr=subprocess.DEVNULL)
+        pre = None
+        if nofile:
+            import resource
+            pre = lambda: resource.setrlimit(resource.RLIMIT_NOFILE, (nofile, nofile))
+        self.p = subprocess.Popen([binary], env=environ(env, self.dir), stdin=subprocess.PIPE, stdout=subprocess.PIPE, stderr=subprocess.DEVNULL,
+                                  preexec_fn=pre)
         self.buf = b""
         self.lines = []
         self.addrs = []
@@ -114,6 +119,30 @@ class Proc:
         c.close()
         time.sleep(0.05)
 
+    def flood(self, n):
+        """n connections at once (more than the descriptor limit allows), then all of them closed again"""
+        host, port = self.addrs[0].rsplit(":", 1)
+        cs = []
+        for _ in range(n):
+            try:
+                cs.append(socket.create_connection((host.strip("[]"), int(port)), timeout=2))
+            except OSError:
+                break
+        time.sleep(0.3)
+        for c in cs:
+            c.close()
+        time.sleep(1.0)      # the handlers notice and release their descriptors
+        return len(cs)
+
+    def probe(self):
+        host, port = self.addrs[0].rsplit(":", 1)
+        try:
+            c = socket.create_connection((host.strip("[]"), int(port)), timeout=2)
+            c.close()
+            return True
+        except OSError:
+            return False
+
     def exited(self, within):
         try:
             self.p.wait(timeout=within)
@@ -143,7 +172,7 @@ def run_scenario(binary, scen, scratch):
     returns the event list"""
     env = scen["env"]
     ev = [{"event": "Launch", "env": env}]
-    pr = Proc(binary, env, scratch)
+    pr = Proc(binary, env, scratch, nofile=scen.get("nofile"))
     try:
         early = scen.get("early") or []
         if early:
@@ -173,6 +202,11 @@ def run_scenario(binary, scen, scratch):
                     ev.append({"event": "Exited"})
                     return ev
                 ev.append({"event": "Alive"})
+            elif st["a"] == "flood" and pr.addrs:
+                n = pr.flood(st.get("n", 80))
+                ev.append({"event": "Flood", "opened": n})
+            elif st["a"] == "probe" and pr.addrs:
+                ev.append({"event": "Probe", "accepted": pr.probe()})
             elif st["a"] == "open" and pr.addrs:
                 pr.open()
                 ev.append({"event": "Open"})
